@@ -36,6 +36,10 @@ static void scenario() {
     else if (streq(k, "direct")) { canceller(R, res1); binder(D, R); useD = expD = true; expC = false; }
     else if (streq(k, "both")) { canceller(R, res1); binder(C, P); binder(D, R); useD = expD = true; }
     else if (streq(k, "two_cancel")) { canceller(R, res1); canceller(R, res2); binder(C, P); }
+    else if (streq(k, "leaf_cancel")) { // two (three) cancellers of a LEAF context (bound, no children): Q beneath S; and a binder of a first child beneath the leaf
+        canceller(Q, res1); canceller(Q, res2); binder(C, Q); expR = expP = false; expC = true; }
+    else if (streq(k, "fresh_cancel")) { // two cancellers of a context that has never been bound (state created)
+        canceller(E, res1); canceller(E, res2); binder(C, P); expR = expP = expC = false; }
     else if (streq(k, "mid")) { canceller(P, res1); binder(C, P); binder(D, R); useD = true; expD = false; expR = false; }
     else if (streq(k, "destroy")) { canceller(R, res1); binder(C, P); init.push_back([&] { r1::thread_data* t = as(nullptr); restore(t); }); body.push_back([&] { delete X; X = nullptr; }); }
     else if (streq(k, "deep")) { canceller(R, res1); binder(C, P);
@@ -51,10 +55,11 @@ static void scenario() {
     // all cancel calls and bindings have completed
     auto chk = [&](ctx_t& c, bool expect, const char* name) { bool is = c.is_group_execution_cancelled(); if (is != expect) vf_fail("%s is %scancelled after all cancel calls and bindings completed (expected %s)", name, is ? "" : "not ", expect ? "cancelled" : "clean"); };
     chk(R, expR, "R (root)"); chk(P, expP, "P (bound child)"); if (bindC) chk(C, expC, "C (bound beneath P concurrently)"); if (useD) chk(D, expD, "D (bound beneath R concurrently)"); if (useE) chk(E, expE, "E (bound beneath C concurrently)");
-    bool sCancelled = streq(k, "prebind"); chk(S, sCancelled, "S (unrelated root)"); chk(Q, sCancelled, "Q (child of S)"); chk(I, false, "I (isolated context created under P)");
-    if (streq(k, "two_cancel")) { if (res1 == res2) vf_fail("concurrent cancel calls on one context returned %d and %d", res1, res2); } else if (!res1) vf_fail("the only cancel call returned false");
+    bool sCancelled = streq(k, "prebind"); chk(S, sCancelled, "S (unrelated root)"); chk(Q, sCancelled || streq(k, "leaf_cancel"), "Q (child of S)");
+    if (streq(k, "fresh_cancel")) { if (!E.is_group_execution_cancelled()) vf_fail("the fresh context is not cancelled after two cancel calls"); } chk(I, false, "I (isolated context created under P)");
+    if (streq(k, "two_cancel") || streq(k, "leaf_cancel") || streq(k, "fresh_cancel")) { if (res1 == res2) vf_fail("concurrent cancel calls on one context returned %d and %d", res1, res2); } else if (!res1) vf_fail("the only cancel call returned false");
     // stays cancelled until reset; reset clears only that context
-    ctx_t& tgt = streq(k, "mid") ? P : streq(k, "prebind") ? S : R; if (tgt.cancel_group_execution()) vf_fail("a second cancel of a cancelled context returned true");
+    ctx_t& tgt = streq(k, "mid") ? P : streq(k, "prebind") ? S : streq(k, "leaf_cancel") ? Q : streq(k, "fresh_cancel") ? E : R; if (tgt.cancel_group_execution()) vf_fail("a second cancel of a cancelled context returned true");
     tgt.reset(); if (tgt.is_group_execution_cancelled()) vf_fail("reset did not clear the context");
     vf_outcome("r=%d%d", res1, res2);
     if (X) delete X;
